@@ -172,6 +172,8 @@ fn release_quarantine() {
 }
 
 pub fn set_tracking(on: bool) { TRACK.with(|t| t.set(on)); }
+/// (layout mismatches, releases of unknown blocks, repeated releases) counted since the last reset
+pub fn fault_counters() -> (u64, u64, u64) { (NMISMATCH.with(|n| n.get()) as u64, UNKNOWN.with(|u| u.get()), DOUBLE.with(|u| u.get())) }
 pub fn live() -> isize { LIVE.with(|l| l.get()) }
 pub fn peak() -> isize { PEAK.with(|l| l.get()) }
 pub fn reset_peak() { PEAK.with(|p| p.set(LIVE.with(|l| l.get()))); }
